@@ -301,12 +301,11 @@ Qed.
 Lemma xview_id r : v_id (xview r) = v_id (view r).
 Proof. destruct r as [p a]. reflexivity. Qed.
 
-(* when is a page unchanged by ExtractPages' copy *)
-Definition xsafe (r : rpage) : Prop :=
-  a_crop (snd r) = a_crop (pg_attrs (fst r)) /\           (* its CropBox is not an inherited one *)
-  a_media (snd r) <> None /\                              (* it has a MediaBox (required by the PDF spec) *)
-  (a_rot (pg_attrs (fst r)) = None ->                     (* an inherited rotation r has r%360 > 0, or is 0 *)
-     0 < Z.rem (rot_of (snd r)) 360 \/ rot_of (snd r) = 0).
+(* the only requirement for a page to be reproduced by ExtractPages' copy: it has a MediaBox
+   (required by the PDF specification and by pdfcpu's validation) *)
+Definition xsafe (r : rpage) : Prop := a_media (snd r) <> None.
+
+Definition npages_of (t : tree) : list vpage := map norm_view (pages_of t).
 
 Definition own_consistent (r : rpage) : Prop :=
   exists inh, snd r = inherit inh (pg_attrs (fst r)).
@@ -319,21 +318,22 @@ Proof.
     apply Forall_app. split; [apply Hk|apply IHks].
 Qed.
 
-Lemma xview_safe r : own_consistent r -> xsafe r -> xview r = view r.
+Lemma xview_safe r : own_consistent r -> xsafe r -> norm_view (xview r) = norm_view (view r).
 Proof.
-  destruct r as [p a]. intros [inh Hown] [Hc [Hm Hr]]. simpl in *.
-  unfold xview, xres, view, xpage. simpl.
+  destruct r as [p a]. intros [inh Hown] Hm. unfold xsafe in Hm. simpl in *.
+  unfold xview, xres, view, xpage, norm_view. simpl.
   destruct (a_media a) as [m|] eqn:Em; [|congruence]. simpl.
-  unfold rot_of at 1. simpl.
   f_equal.
-  - destruct (0 <? Z.rem (rot_of a) 360) eqn:E; simpl; [reflexivity|].
-    subst a. unfold rot_of in *. simpl in *.
+  - unfold rot_of at 1. simpl. destruct (Z.rem (rot_of a) 360 =? 0) eqn:E; simpl; [|reflexivity].
+    apply Z.eqb_eq in E. subst a. unfold rot_of in *. simpl in *.
     destruct (a_rot (pg_attrs p)) as [r0|] eqn:Er; simpl in *; [reflexivity|].
-    destruct (Hr eq_refl) as [H|H]; [lia|]. symmetry. exact H.
-  - rewrite Hc. destruct (a_crop (pg_attrs p)); reflexivity.
+    apply Z.rem_mod_eq_0 in E; [|lia]. rewrite E. reflexivity.
+  - destruct (a_crop a) as [c|] eqn:Ec; simpl; [reflexivity|].
+    subst a. simpl in Ec. destruct (a_crop (pg_attrs p)); [discriminate|reflexivity].
 Qed.
 
-Lemma map_xview_safe rs : Forall own_consistent rs -> Forall xsafe rs -> map xview rs = map view rs.
+Lemma map_xview_safe rs : Forall own_consistent rs -> Forall xsafe rs ->
+  map norm_view (map xview rs) = map norm_view (map view rs).
 Proof.
   intros Ho Hs. induction rs as [|r rs IH]; [reflexivity|].
   inversion Ho; inversion Hs; subst. simpl. rewrite xview_safe, IH by assumption. reflexivity.
